@@ -42,6 +42,10 @@ const (
 	posShow   = "v-show"    // <s v-show="e">S</s>
 )
 
+// posVText: <u v-text="e"></u> - the element's text is the printed value of e, like {{ e }}
+// (compared in the zero-value dimension, zero_test.go)
+const posVText = "vtext"
+
 var allExprPos = []string{posInterp, posSAttr, posBound, posIf, posElseIf, posShow}
 var condPos = []string{posIf, posElseIf, posShow}
 var valuePos = []string{posInterp, posSAttr, posBound}
@@ -292,6 +296,14 @@ func templateForV(pos, e, tv string) string {
 		return `<p ` + vif + `=` + q + al + esc + ar + q + `>Y</p><p v-else>N</p>`
 	case posElseIf:
 		return `<p ` + voff + `>A</p><p ` + velseif + `=` + q + al + esc + ar + q + `>Y</p><p v-else>N</p>`
+	case posVText:
+		vt := "v-text"
+		if tv == "upper" {
+			vt = "V-TEXT"
+		}
+		// no blanks around the value: what v-text does with a padded value is not documented
+		// (the current tree prints nothing for v-text=" z "), so the pad-* spellings leave it alone
+		return `<u ` + vt + `=` + q + esc + q + `></u>`
 	case posShow:
 		return `<s ` + vshow + `=` + q + al + esc + ar + q + `>S</s>`
 	}
@@ -386,7 +398,7 @@ func observe(eng *engine, pos, e string) (obs, error) {
 	if perr != nil {
 		return obs{}, fmt.Errorf("output does not parse: %v", perr)
 	}
-	tag := map[string]string{posInterp: "i", posSAttr: "i", posBound: "b", posIf: "p", posElseIf: "p", posShow: "s"}[pos]
+	tag := map[string]string{posInterp: "i", posSAttr: "i", posBound: "b", posIf: "p", posElseIf: "p", posShow: "s", posVText: "u"}[pos]
 	els := hx.Find(ns, func(n *hx.N) bool { return n.Tag == tag })
 	if len(els) != eng.n {
 		return obs{}, fmt.Errorf("%s: expected %d <%s> in the output, got %d: %q", pos, eng.n, tag, len(els), out)
@@ -396,6 +408,8 @@ func observe(eng *engine, pos, e string) (obs, error) {
 	case posInterp:
 		// exact text (inner blanks matter for values such as JSON); only the ends are trimmed
 		return obs{text: strings.TrimSpace(rawText(out, "i", eng.idx)), present: true}, nil
+	case posVText:
+		return obs{text: strings.TrimSpace(rawText(out, "u", eng.idx)), present: true}, nil
 	case posSAttr:
 		t, ok := el.Attrs["title"]
 		if !ok {
@@ -1101,6 +1115,7 @@ func TestProp(t *testing.T) {
 	enum = append(enum, g.enumOverride()...)
 	enum = append(enum, g.enumEquivalents()...)
 	enum = append(enum, g.enumNonASCII()...)
+	enum = append(enum, g.enumZeros()...)
 	okAll := true
 	for i, c := range enum {
 		if i%shards != shard {
